@@ -50,6 +50,10 @@ type Spec struct {
 	Empty      bool     `json:"empty,omitempty"`    // blocking only
 	Mp4        bool     `json:"mp4,omitempty"`      // blocking only
 	DNSRewrite *string  `json:"dnsrewrite,omitempty"`
+	// Extra are modifiers written out as text: modifiers of the filter
+	// syntax that this version of the library does not know (a rule carrying
+	// one is rejected by its parser, until support for it is added).
+	Extra []string `json:"extra,omitempty"`
 }
 
 // TypeNames maps content-type modifier names to request types.
@@ -161,6 +165,7 @@ func (s *Spec) modifierTexts(rng *rand.Rand) (mods []string) {
 	if s.Mp4 {
 		mods = append(mods, "mp4")
 	}
+	mods = append(mods, s.Extra...)
 	if s.DNSRewrite != nil {
 		if *s.DNSRewrite == "" {
 			mods = append(mods, "dnsrewrite")
@@ -219,6 +224,7 @@ func (s *Spec) Clone() *Spec {
 	c.CTags = append([]Val(nil), s.CTags...)
 	c.Clients = append([]Client(nil), s.Clients...)
 	c.DocOpts = append([]string(nil), s.DocOpts...)
+	c.Extra = append([]string(nil), s.Extra...)
 	if s.DNSRewrite != nil {
 		v := *s.DNSRewrite
 		c.DNSRewrite = &v
